@@ -126,6 +126,9 @@ let ses = { lvl = new_level N0; gen = N0; oracle = false; iface_ok = true; asks 
 let fork : level option ref = ref None
 let fork_gen = ref N0
 let fq : order list ref = ref []
+(* ideal time-priority level (Spec/Priority.v), run beside the concrete one for C04 *)
+let il : ilevel ref = ref (inew N0)
+let il_gen = ref N0
 
 let fuel = nat_of_int 20000
 
@@ -252,6 +255,29 @@ let thread_rets (t : thread) =
   (* returns of completed calls, plus the current one if it is Done *)
   t.th_rets @ (match t.th_pc with Done r -> [r] | _ -> [])
 
+let rec nodup_oids = function
+  | [] -> true
+  | k :: t -> not (List.exists (fun x -> oid_eqb x k) t) && nodup_oids t
+
+(* AlignedStrong (Spec/Priority.v) as a boolean on the two model states *)
+let aligned_strong (l : level) (i : ilevel) =
+  let a = abs l.lq in
+  let ii = List.map oid_of i.iorders in
+  List.length a = List.length ii && List.for_all2 oid_eqb a ii
+  && List.length l.lq.qmap = List.length i.iorders
+  && List.for_all (fun o -> match lookup (oid_of o) l.lq.qmap with Some x -> order_eqb x o | None -> false) i.iorders
+  && nodup_oids (live_tickets l.lq)
+
+let ideal_suffix () =
+  Printf.sprintf " aligned=%d iord=%s" (if aligned_strong ses.lvl !il then 1 else 0)
+    (list_str string_of_oid (List.map oid_of (!il).iorders))
+
+(* re-base the ideal level on the concrete pop order (after a known deviation) *)
+let resync () =
+  let l = ses.lvl in
+  let os = List.filter_map (fun k -> lookup k l.lq.qmap) (abs l.lq) in
+  il := { iprice = l.price; iorders = os }
+
 let handle line =
   match String.split_on_char ' ' line with
   | ["MA"; o; inc] -> "= " ^ string_of_mres (match_against (order_of_string o) (n_of_string inc))
@@ -262,6 +288,7 @@ let handle line =
   | ["NEW"; p; mode] ->
     ses.lvl <- new_level (n_of_string p); ses.gen <- N0; ses.oracle <- (mode = "O");
     ses.iface_ok <- true; ses.asks <- 0; fork := None; fork_gen := N0;
+    il := inew (n_of_string p); il_gen := N0;
     "= ok"
   | ["ADD"; o] ->
     let o = order_of_string o in
@@ -270,14 +297,22 @@ let handle line =
         | Some f -> let f' = add_order f o in fork := Some f';
           " || ret=" ^ string_of_order o ^ " " ^ string_of_state f'
         | None -> "") in
-    "= ret=" ^ string_of_order o ^ " " ^ string_of_state ses.lvl ^ fk
+    il := iadd !il o;
+    "= ret=" ^ string_of_order o ^ " " ^ string_of_state ses.lvl ^ ideal_suffix () ^ fk
   | ["MATCH"; qty; taker] ->
     let qty = n_of_string qty and taker = oid_of_string taker in
+    let g0 = ses.gen in
     let main =
       (match do_match ses.lvl ses.gen qty taker with
        | Some (l', g', r) -> ses.lvl <- l'; ses.gen <- g';
          string_of_result r ^ " " ^ string_of_state l'
        | None -> "nofuel") in
+    let ideal =
+      (match imatch mf fuel !il g0 qty taker with
+       | Some ((i', _), r) -> il := i';
+         " ideal=" ^ String.concat ";" (String.split_on_char ' ' (string_of_result r))
+       | None -> " ideal=nofuel") in
+    let main = main ^ ideal ^ ideal_suffix () in
     let fk =
       (match !fork with
        | Some f ->
@@ -295,7 +330,9 @@ let handle line =
         | Some f -> let (f', out') = update_order f u in fork := Some f';
           " || out=" ^ string_of_uout out' ^ " " ^ string_of_state f'
         | None -> "") in
-    "= out=" ^ string_of_uout out ^ " " ^ string_of_state l' ^ fk
+    let (i', iout) = iupdate !il u in
+    il := i';
+    "= out=" ^ string_of_uout out ^ " " ^ string_of_state l' ^ " iout=" ^ string_of_uout iout ^ ideal_suffix () ^ fk
   | ["SNAP"] ->
     let s = snapshot_of ses.lvl in
     Printf.sprintf "= price=%s cv=%s ch=%s cc=%s vec=%s total=%s" (string_of_n s.sn_price) (string_of_n s.sn_vis)
@@ -306,7 +343,19 @@ let handle line =
     let os = parse_list order_of_string listing in
     let okp = perm_of_map ses.lvl os && sorted_ts os in
     ses.lvl <- rebuild via ses.lvl os;
+    resync ();
     Printf.sprintf "= perm=%d %s" (if okp then 1 else 0) (string_of_state ses.lvl)
+  | ["RESYNC"] -> resync (); "= ok" ^ ideal_suffix ()
+  | ["EXT"; via; cv; ch; cc; listing] ->
+    let os = parse_list order_of_string listing in
+    let p = ses.lvl.price in
+    ses.lvl <- (match via with
+        | "snap" -> from_snapshot { sn_price = p; sn_vis = n_of_string cv; sn_hid = n_of_string ch;
+                                    sn_cnt = n_of_string cc; sn_orders = os }
+        | "data" -> from_data p os
+        | _ -> failwith ("bad via " ^ via));
+    resync ();
+    "= " ^ string_of_state ses.lvl
   | ["FORK"; via; listing] ->
     let os = parse_list order_of_string listing in
     let okp = perm_of_map ses.lvl os && sorted_ts os in
